@@ -3,13 +3,8 @@
 //! usage: flipdot-verif <ID> [--tier quick|thorough] [--replay FILE]
 //! env:   VERIF_SEED (integer, default 0), VERIF_TIER (quick|thorough), VERIF_WORKERS
 
-mod engine;
-mod io;
-mod oracle;
-mod props;
-mod repr;
-
-use engine::{Ctx, Tier};
+use flipdot_verif::engine::{self, Ctx, Tier};
+use flipdot_verif::props;
 
 fn main() {
     let args: Vec<String> = std::env::args().collect();
